@@ -12,10 +12,19 @@ Oracle: the text compiles; executes in a namespace holding nothing but builtins 
 only what it imports, and every class is defined before it is used); defines one class per class
 of the parsed model and no two classes with one stem that are equal; each generated class `==`
 the parsed class of that name and returns the same outcome on every generated value; the root
-does so too."""
+does so too.
+Direct oracle ("the model obtained by parsing the schema directly"): `json_ref_dict.materialize` hands ONE dictionary to every
+`$ref` that points at it and `parse` walks `definitions` again after the root, so the generator's parse visits a shared schema
+several times and sees, from the second visit on, what the first visit wrote into it.  The reference model is therefore obtained
+from the same resolved, auto-titled document copied as a TREE (`unshare`: every referrer gets a private copy, nothing is visited
+twice) and parsed on its own: element for element (root, every definition) and class for class it must equal what the generator's
+parse produced, the generated module must declare exactly its classes, and every generated class must answer like the directly
+parsed class of that name on every generated value (values are also aimed through the second and later referrers of a shared
+definition)."""
 import ast
 import copy
 import json
+import keyword
 import os
 import random
 import shutil
@@ -205,6 +214,139 @@ def regions(files):
     return out
 
 
+def unshare(node):
+    """The resolved document as a tree: every `$ref` target copied privately for each referrer (documents are acyclic).
+    `copy.deepcopy` would keep one shared dictionary shared; this keeps nothing shared, so a parse of the result visits
+    every schema dictionary exactly once."""
+    if isinstance(node, dict):
+        return {k: unshare(v) for k, v in node.items()}
+    if isinstance(node, list):
+        return [unshare(v) for v in node]
+    return node
+
+
+def sharing(raw):
+    """(dictionaries the generator's parse visits more than once, how many of them are object schemas declaring a property
+    whose attribute name differs from its JSON name) - for the distribution only, never for the verdict.  The walk follows
+    what `parse` follows: the root, then every definition again."""
+    visits, nodes = {}, {}
+
+    def walk(s):
+        if isinstance(s, dict):
+            visits[id(s)] = visits.get(id(s), 0) + 1
+            nodes[id(s)] = s
+            if visits[id(s)] > 1:
+                return
+            for v in s.values():
+                walk(v)
+        elif isinstance(s, list):
+            for v in s:
+                walk(v)
+    defs = raw.get("definitions") if isinstance(raw, dict) else None
+    walk({k: v for k, v in raw.items() if k != "definitions"} if isinstance(raw, dict) else raw)
+    if isinstance(defs, dict):
+        for d in defs.values():
+            walk(d)
+    shared = [nodes[i] for i, n in visits.items() if n > 1 and ("type" in nodes[i] or "properties" in nodes[i])]
+    renamed = 0
+    for s in shared:
+        props = s.get("properties")
+        if isinstance(props, dict) and any(isinstance(k, str) and (not k.isidentifier() or keyword.iskeyword(k) or k in dir(object)) for k in props):
+            renamed += 1
+    return len(shared), renamed
+
+
+def second_referrer_values(raw, vg, rng):
+    """Values which reach a shared definition through EVERY property of the root that refers to it (the first referrer
+    and the later ones), each holding an aimed value for that definition and a twisted one (a required key dropped or a
+    member replaced by a value of another type)."""
+    props = raw.get("properties") if isinstance(raw, dict) else None
+    if not isinstance(props, dict):
+        return []
+    seen, groups = {}, {}
+    for name, sub in props.items():
+        target, wrap = sub, (lambda v: v)
+        if isinstance(sub, dict) and sub.get("type") == "array" and isinstance(sub.get("items"), dict):
+            target, wrap = sub["items"], (lambda v: [v])
+        if isinstance(target, dict) and isinstance(target.get("properties"), dict):
+            groups.setdefault(id(target), []).append((name, wrap))
+            seen[id(target)] = target
+    out = []
+    for key, referrers in groups.items():
+        if len(referrers) < 2:
+            continue
+        target = seen[key]
+        try:
+            good = vg.aimed(target, 2)
+        except Exception:  # noqa: BLE001
+            continue
+        if not isinstance(good, dict):
+            good = {}
+        for k, sub in target["properties"].items():
+            if k not in good and isinstance(sub, dict):
+                try:
+                    good[k] = vg.aimed(sub, 1)
+                except Exception:  # noqa: BLE001
+                    pass
+        bad = [good]
+        for k in list(good):
+            dropped = {a: b for a, b in good.items() if a != k}
+            other = dict(good)
+            other[k] = rng.choice([3, "s", None, [], {}, True, 1.5])
+            bad += [dropped, other]
+        rng.shuffle(bad)
+        for v in bad[:3]:
+            for name, wrap in referrers:
+                out.append({name: wrap(copy.deepcopy(v))})
+            out.append({name: wrap(copy.deepcopy(v)) for name, wrap in referrers})
+    return out
+
+
+def direct_oracle(case, raw, elements, stats):
+    """The generator's parse (of the shared, resolved document) against a parse of the same document as a tree.
+    Returns (directly parsed classes by name | None, failure | None)."""
+    n_shared, n_renamed = sharing(raw)
+    if n_shared:
+        stats["direct-shared-schema"] = stats.get("direct-shared-schema", 0) + 1
+    if n_renamed:
+        stats["direct-shared-schema-renamed-property"] = stats.get("direct-shared-schema-renamed-property", 0) + 1
+    try:
+        direct = parse(unshare(raw))
+    except RecursionError:
+        stats["direct-recursion"] = stats.get("direct-recursion", 0) + 1
+        return None, None
+    except Exception as exc:  # noqa: BLE001 - the generator accepted this very document
+        return None, {"case": case, "what": f"parsing the self-contained copy of the document raises {type(exc).__name__}: {str(exc)[:160]}, the generator accepted it", "finding": None}
+    stats["direct-compared"] = stats.get("direct-compared", 0) + 1
+    if len(direct) != len(elements):
+        return None, {"case": case, "what": f"the generator's parse returns {len(elements)} elements, the directly parsed document {len(direct)}", "finding": None}
+    d_classes = {}
+    for c in get_object_classes(*direct):
+        d_classes.setdefault(c.__name__, c)
+    p_classes = [c.__name__ for c in get_object_classes(*elements)]
+    if sorted(set(p_classes)) != sorted(d_classes):
+        extra = sorted(set(p_classes) - set(d_classes))
+        missing = sorted(set(d_classes) - set(p_classes))
+        return None, {"case": case, "what": "not one class per distinct object schema: the generator declares " + (f"{extra} which the directly parsed schema does not have" if extra else "no class")
+                      + (f" and lacks {missing}" if missing else "") + f" (generator: {sorted(set(p_classes))}, direct: {sorted(d_classes)})", "finding": None}
+    for i, (a, b) in enumerate(zip(elements, direct)):
+        try:
+            equal = (a == b) and (b == a)
+        except Exception as exc:  # noqa: BLE001
+            equal = f"exc:{type(exc).__name__}"
+        if equal is not True:
+            where = "root" if i == 0 else f"definition #{i - 1}"
+            return None, {"case": {**case, "element": i}, "what": f"the generator's model of the {where} is not equal to the directly parsed one ({equal}): {str(a.python() if hasattr(a, 'python') else a)[:100]} vs {str(b.python() if hasattr(b, 'python') else b)[:100]}", "finding": None}
+    for c in get_object_classes(*elements):
+        try:
+            equal = c == d_classes[c.__name__]
+        except Exception as exc:  # noqa: BLE001
+            equal = f"exc:{type(exc).__name__}"
+        if equal is not True:
+            return None, {"case": {**case, "class": c.__name__}, "what": f"the generator's class {c.__name__} is not equal to the directly parsed class of that name ({equal})", "finding": None}
+    return d_classes, None
+
+
 def module_shape(text):
     """Structure of the generated module, via Python's own parser."""
     tree = ast.parse(text)
@@ -246,7 +388,8 @@ def norm_ann(text):
     return text.replace(" ", "")
 
 
-def check_document(drv, files, out, stats, vg, tmp, label):
+def check_document(drv, files, out, stats, vg, tmp, label, rng=None):
+    rng = rng or random.Random(0)
     case = {"label": label, "files": files}
     for name, doc in files.items():
         with open(os.path.join(tmp, name), "w", encoding="utf8") as fh:
@@ -277,6 +420,11 @@ def check_document(drv, files, out, stats, vg, tmp, label):
             return
     except Exception as exc:  # noqa: BLE001
         out.failures.append({"case": case, "what": f"main() raised {type(exc).__name__}: {exc}", "finding": None})
+        return
+    # --- oracle 0: the generator's parse of the shared document against a direct parse of the document as a tree
+    direct, failure = direct_oracle(case, raw, elements, stats)
+    if failure:
+        out.failures.append(failure)
         return
     # --- oracle 1: valid Python, runs on its own imports, classes before use
     try:
@@ -325,7 +473,18 @@ def check_document(drv, files, out, stats, vg, tmp, label):
     except Exception:  # noqa: BLE001
         pass
     values += [{}, {"name": "n"}, {"first": {}, "second": [{}]}, [], "s", 1, None, core.NP]
+    try:
+        through = second_referrer_values(raw, vg, rng) if isinstance(raw, dict) else []
+    except Exception:  # noqa: BLE001
+        through = []
+    if through:
+        stats["values-through-every-referrer"] = stats.get("values-through-every-referrer", 0) + len(through)
+    # the root's own class: `get_object_classes` lists an element before its children, so it is the first of the root's closure
+    root_closure = get_object_classes(elements[0])
+    root_name = root_closure[0].__name__ if root_closure else None
+    base_values = values
     for n, pc in parsed.items():
+        values = base_values + through if n == root_name else base_values
         gc = generated[n]
         try:
             equal = (gc == pc) and (pc == gc)
@@ -339,6 +498,11 @@ def check_document(drv, files, out, stats, vg, tmp, label):
             if a != b:
                 out.failures.append({"case": {**case, "class": n, "value": core.enc_arg(v)}, "what": f"generated class {n} answers {str(a)[:120]}, the parsed class {str(b)[:120]}", "finding": finding})
                 return
+            if direct is not None and n in direct and n == root_name:
+                d = core.real_call(direct[n], v)
+                if a != d:
+                    out.failures.append({"case": {**case, "class": n, "value": core.enc_arg(v)}, "what": f"generated class {n} answers {str(a)[:120]}, the directly parsed schema {str(d)[:120]}", "finding": finding})
+                    return
     # --- the model
     try:
         dumps = [core.dump_elem(e) for e in elements]
@@ -397,7 +561,9 @@ def run(ctx, scale=1.0):
     out.rule = ("reference documents: a root object (depth <= 3) over 0-4 acyclic definitions and, in a third of the cases, a second file with 1-2 "
                 "definitions; references from properties, items, tuple items, additional properties/items, composition members and not; one definition "
                 "referenced from two places; titles from a pool with repeats (equal and unequal content) or absent (auto-titled); a case is one document "
-                "through the whole generator; non-trivial = at least two classes generated; distinct by SHA-256")
+                "through the whole generator; non-trivial = at least two classes generated; distinct by SHA-256; every document is also parsed directly from "
+                "a tree copy in which no schema dictionary is shared (the generator's parse visits a shared one once per referrer and once more as a "
+                "definition), and the root class is called with values reaching a shared definition through each of its referrers")
     stats = {}
     tmp = tempfile.mkdtemp(prefix="statham-c02-")
     drv = core.Driver()
@@ -407,7 +573,7 @@ def run(ctx, scale=1.0):
             sub = os.path.join(tmp, f"d{i}")
             os.mkdir(sub)
             try:
-                check_document(drv, g.document(), out, stats, vg, sub, f"doc-{i}")
+                check_document(drv, g.document(), out, stats, vg, sub, f"doc-{i}", rng)
             finally:
                 shutil.rmtree(sub, ignore_errors=True)
     finally:
@@ -425,7 +591,8 @@ def search(ctx, reason):
     return new[0] if new else None
 
 
-def _replay_case(case):
+def _replay_case(case, new_only=False):
+    """new_only: failures inside a known-finding region (they occur on the unchanged library too) do not count"""
     out, stats = Outcome(), {}
     tmp = tempfile.mkdtemp(prefix="statham-c02-")
     drv = core.Driver()
@@ -434,7 +601,7 @@ def _replay_case(case):
     finally:
         drv.close()
         shutil.rmtree(tmp, ignore_errors=True)
-    return bool(out.failures)
+    return bool([f for f in out.failures if f.get("finding") is None] if new_only else out.failures)
 
 
 def replay_finding(finding):
@@ -442,5 +609,6 @@ def replay_finding(finding):
 
 
 def replay(payload):
-    case = payload.get("failure", {}).get("case")
-    return True if not case or "files" not in case else not _replay_case(case)
+    failure = payload.get("failure", {})
+    case = failure.get("case")
+    return True if not case or "files" not in case else not _replay_case(case, new_only=failure.get("finding") is None)
